@@ -38,7 +38,7 @@ def gen_case(seed, n):
     c["auth_value"] = r.choice(["Basic dXNlcjpwYXNz", "Bearer abc.def.ghi", "Digest username=\"u\", realm=\"r\", nonce=\"n\", uri=\"/\", response=\"0\""])
     # ---- response (same header recipe for every response of the case)
     rs = []
-    pool = [("no-store", 0.22), ("private", 0.16), ('private="x-f1, x-f2"', 0.06), ("public", 0.25), ("must-revalidate", 0.2),
+    pool = [("no-store", 0.22), ("private", 0.16), ('private="x-f1, x-f2"', 0.06), ("private=x-f1", 0.06), ("public", 0.25), ("must-revalidate", 0.2),
             ("s-maxage=%d" % r.choice([60, 3600, 86400]), 0.2), ("max-age=%d" % r.choice([60, 3600, 86400, 31536000]), 0.6),
             ("no-cache", 0.08), ('no-cache="set-cookie"', 0.04), ("proxy-revalidate", 0.06), ("no-transform", 0.06),
             ("immutable", 0.05), ("x-ext", 0.06), ('x-q="private, no-store"', 0.06), ("stale-while-revalidate=30", 0.04),
